@@ -40,6 +40,10 @@ Menu == {From(HexOf(IdA), 0, HexOf(LockA), 5000),
          [k |-> "hashpuzzle", sats |-> LE64(9), secret |-> <<115, 51>>, hc |-> HexOf(H1), h160 |-> H1],
          [k |-> "opreturn", parts |-> <<>>],
          [k |-> "opreturn", parts |-> <<<<1, 2>>, <<>>, Rep(9, 76)>>],
+         [k |-> "inscribe", prefix |-> LockA, ct |-> <<116>>, data |-> <<104, 105>>],
+         [k |-> "inscribeat", prefix |-> LockA, ct |-> <<>>, data |-> <<>>, idx |-> 1, satidx |-> LE64(3), extra |-> LockA],
+         [k |-> "inscribeat", prefix |-> LockA, ct |-> <<116>>, data |-> <<1>>, idx |-> 0, satidx |-> LE64(0), extra |-> <<>>],
+         [k |-> "inscribeat", prefix |-> LockA, ct |-> <<116>>, data |-> <<1>>, idx |-> 3, satidx |-> LE64(0), extra |-> <<>>],
          [k |-> "insertus", idx |-> 0, us |-> <<81>>],
          [k |-> "insertus", idx |-> 2, us |-> <<>>],
          [k |-> "set", f |-> "lt", idx |-> 0, v |-> <<0, 0, 0, 239>>],
